@@ -9,6 +9,7 @@ package main
 //     Coq model (Response.v) can be evaluated on the same input.
 
 import (
+	"sync"
 	"strconv"
 	"fmt"
 	"sort"
@@ -438,7 +439,11 @@ func matchesSpec(a *types.Assertion, s *AssertionSpec) bool {
 var specIssueInstant = time.Date(2024, 5, 17, 10, 29, 0, 0, time.UTC)
 
 // infoMatchesSpec: does the AssertionInfo summarise the FIRST signed assertion exactly (C06 / C08)?
-func infoMatchesSpec(info *saml2.AssertionInfo, s *AssertionSpec, now time.Time) string {
+func infoMatchesSpec(info *saml2.AssertionInfo, s *AssertionSpec, now time.Time, audience ...string) string {
+	configured := audURI
+	if len(audience) > 0 {
+		configured = audience[0]
+	}
 	if info.SessionIndex != s.SessionIndex {
 		return "SessionIndex"
 	}
@@ -478,7 +483,7 @@ func infoMatchesSpec(info *saml2.AssertionInfo, s *AssertionSpec, now time.Time)
 	for _, r := range s.Audiences {
 		m := false
 		for _, x := range r {
-			if x == audURI {
+			if x == configured {
 				m = true
 			}
 		}
@@ -488,6 +493,14 @@ func infoMatchesSpec(info *saml2.AssertionInfo, s *AssertionSpec, now time.Time)
 	}
 	if w.NotInAudience != notIn {
 		return "WarningInfo.NotInAudience"
+	}
+	// the time warning: now outside [NotBefore, NotOnOrAfter) of THIS assertion's Conditions (instants, whatever the rendering)
+	if nb, e1 := time.Parse(time.RFC3339, s.NB); e1 == nil {
+		if noa, e2 := time.Parse(time.RFC3339, s.CondNOA); e2 == nil {
+			if want := now.Before(nb) || !now.Before(noa); w.InvalidTime != want {
+				return fmt.Sprintf("WarningInfo.InvalidTime (got %v, clock %s, Conditions [%s, %s))", w.InvalidTime, now.Format(time.RFC3339Nano), s.NB, s.CondNOA)
+			}
+		}
 	}
 	// attribute map: keyed by Name, a later attribute of the same Name replaces an earlier one
 	if !s.NoAttrStmt {
@@ -838,6 +851,8 @@ func runResponseStream(c *Ctx, n int, focus string) {
 		"fun i => match i with (cfg, now, root, dt, et) => VL [res_val response_val (validate_response_tree (dsig_table dt) (decrypt_table et) cfg now root); res_val assertion_info_val (retrieve_assertion_info_tree (dsig_table dt) (decrypt_table et) cfg now root)] end")
 	cs.PerShard = 25
 	var prevSP *saml2.SAMLServiceProvider
+	var conc []concRec
+	defer func() { concurrentReplay(c, conc) }()
 	for k := 0; k < n; k++ {
 		g := &xgen{r: c.R, now: baseNow.Add(time.Duration(c.R.Intn(100000)) * time.Second)}
 		r := c.R
@@ -898,6 +913,9 @@ func runResponseStream(c *Ctx, n int, focus string) {
 		if r.Intn(6) == 0 {
 			nA = 1 + r.Intn(5)
 		}
+		if focus == "C05" || focus == "C06" {
+			nA = 2 + r.Intn(3)
+		}
 		rs := g.okResponseSpec(nA)
 		placement := 1 + r.Intn(3)
 		if r.Intn(12) == 0 {
@@ -913,7 +931,13 @@ func runResponseStream(c *Ctx, n int, focus string) {
 		}
 		var mod func(*SignOpts)
 		if focus == "C02" {
-			switch r.Intn(6) {
+			switch r.Intn(8) {
+			case 6:
+				// signed with the key of a store member, KeyInfo carries a RE-ISSUED certificate for that key (same subject,
+				// other validity): not a store member, must not vouch
+				mod = func(o *SignOpts) { o.Key = w.IdP1; o.EmbedCert = w.IdP1Re }
+			case 7:
+				mod = func(o *SignOpts) { o.Key = w.IdPOld; o.EmbedCert = w.IdPOldRe }
 			case 0, 3:
 				mod = func(o *SignOpts) { o.NoKeyInfo = true }
 			case 1:
@@ -962,11 +986,42 @@ func runResponseStream(c *Ctx, n int, focus string) {
 				profileFault = "destination"
 			}
 		}
+		if focus == "C05" || focus == "C06" {
+			// every assertion gets its own Conditions window / audiences: the warnings must be those of the FIRST one
+			for _, a := range rs.Assertions {
+				switch r.Intn(6) {
+				case 0:
+					a.NB = renderInstant(r, now.Add(time.Duration(1+r.Intn(3600))*time.Second)) // not yet valid
+				case 1:
+					a.CondNOA = renderInstant(r, now) // boundary: expired exactly now
+				case 2:
+					a.CondNOA = renderInstant(r, now.Add(-time.Duration(1+r.Intn(3600))*time.Second))
+				case 3:
+					a.NB = renderInstant(r, now) // boundary: valid from exactly now
+				}
+			}
+			if profileFault == "" && r.Intn(8) == 0 {
+				a := rs.Assertions[r.Intn(len(rs.Assertions))]
+				a.NOA = renderInstant(r, now) // boundary: the subject confirmation expires exactly now
+				profileFault = "expired"
+			}
+		}
 		doc := g.buildSigned(rs, placement, key, mod)
 		rc := &respCase{sp: sp, store: store, now: now, rs: rs, genuine: true}
 		rc.labels = append(rc.labels, fmt.Sprintf("placement=%d", placement), "key="+key.Name, "style="+rs.Style.PP+"/"+rs.Style.AP)
 		if reused {
 			rc.labels = append(rc.labels, "sp-instance-reused")
+		}
+		for _, so := range append([]*SignOpts{rs.SignedBy}, func() (l []*SignOpts) {
+			for _, a := range rs.Assertions {
+				l = append(l, a.SignedBy)
+			}
+			return
+		}()...) {
+			if so != nil && so.EmbedCert != nil && so.EmbedCert != so.Key {
+				rc.labels = append(rc.labels, "keyinfo-cert="+so.EmbedCert.Name+",signing-key="+so.Key.Name)
+				break
+			}
 		}
 		if profileFault != "" {
 			rc.labels = append(rc.labels, "profile-fault="+profileFault)
@@ -1002,6 +1057,7 @@ func runResponseStream(c *Ctx, n int, focus string) {
 		// --- attacker edits ---
 		nEd := 0
 		switch {
+		case focus == "C05" || focus == "C06":
 		case focus == "C08":
 			if r.Intn(4) == 0 {
 				nEd = 1
@@ -1061,9 +1117,39 @@ func runResponseStream(c *Ctx, n int, focus string) {
 		rc.wire = b64(wire)
 		// --- trusted specs (generator knowledge) ---
 		respOK := computeTrust(rc)
-		runOneResponse(c, cs, rc, respOK, profileFault)
+		obs := runOneResponse(c, cs, rc, respOK, profileFault)
+		if obs != "" && len(conc) < 64 {
+			snap := &saml2.SAMLServiceProvider{}
+			reconfigure(snap, sp)
+			conc = append(conc, concRec{cfg: snap, wire: rc.wire, obs: obs, labels: rc.labels, now: rc.now, store: keyNames(rc.store)})
+		}
 		// --- the SAME body presented again to the SAME SP object after a re-configuration ---
-		if r.Intn(6) == 0 {
+		if (focus == "C05" || focus == "C06") && r.Intn(2) == 0 {
+			rc2 := *rc
+			rc2.labels = append([]string{}, rc.labels...)
+			pf2 := profileFault
+			switch r.Intn(3) {
+			case 0:
+				// the clock passes every bound of the message: the very same body must now be refused as expired
+				rc2.now = now.Add(3 * time.Hour)
+				sp.Clock = dsig.NewFakeClockAt(rc2.now)
+				if pf2 == "" {
+					pf2 = "expired"
+				}
+				rc2.labels = append(rc2.labels, "re-presented-after:clock-past-every-bound")
+			case 1:
+				// the clock moves inside the subject-confirmation windows: acceptance stays, the time warning is recomputed
+				rc2.now = now.Add(time.Duration(r.Intn(900)) * time.Millisecond)
+				sp.Clock = dsig.NewFakeClockAt(rc2.now)
+				rc2.labels = append(rc2.labels, "re-presented-after:clock-moved-slightly")
+			default:
+				sp.AudienceURI = pick(r, "https://other.example.com/aud", audURI+"/", "")
+				rc2.labels = append(rc2.labels, "re-presented-after:audience-changed")
+			}
+			respOK2 := computeTrust(&rc2)
+			runOneResponse(c, cs, &rc2, respOK2, pf2)
+			sp.AudienceURI = audURI
+		} else if r.Intn(6) == 0 {
 			rc2 := *rc
 			rc2.labels = append([]string{}, rc.labels...)
 			switch r.Intn(3) {
@@ -1091,6 +1177,95 @@ func runResponseStream(c *Ctx, n int, focus string) {
 
 func sp2(s string) *string { return &s }
 
+// ---------- concurrent replay ----------
+// The property quantifies over inputs, not over schedules, but an implementation that shares buffers or decoded structs
+// between calls returns, under load, results that belong to ANOTHER request (e.g. the fields of an attacker's unsigned
+// message for a genuinely signed one).  A sample of the cases of the sequential run is therefore presented again from
+// several goroutines at once, each on a fresh SP object with the same configuration; every result must be the one the
+// same input produced when it ran alone.
+type concRec struct {
+	cfg    *saml2.SAMLServiceProvider
+	wire   string
+	obs    string
+	labels []string
+	now    time.Time
+	store  []string
+}
+
+func concurrentReplay(c *Ctx, recs []concRec) {
+	if len(recs) < 2 {
+		return
+	}
+	const workers, rounds = 8, 3
+	type diff struct {
+		i   int
+		got string
+	}
+	var mu sync.Mutex
+	var diffs []diff
+	var wg sync.WaitGroup
+	for w := 0; w < workers; w++ {
+		wg.Add(1)
+		go func(w int) {
+			defer wg.Done()
+			for rd := 0; rd < rounds; rd++ {
+				for k := range recs {
+					i := (k*7 + w*13 + rd) % len(recs)
+					rec := recs[i]
+					sp := &saml2.SAMLServiceProvider{}
+					reconfigure(sp, rec.cfg)
+					got := func() (out string) {
+						defer func() {
+							if r := recover(); r != nil {
+								out = "panic: " + fmt.Sprint(r)
+							}
+						}()
+						resp, err := sp.ValidateEncodedResponse(rec.wire)
+						info, err2 := sp.RetrieveAssertionInfo(rec.wire)
+						var a, b string
+						if err != nil {
+							a = VC("Err", errVal(err))
+						} else {
+							a = VC("Ok", responseVal(resp))
+						}
+						if err2 != nil {
+							b = VC("Err", errVal(err2))
+						} else {
+							b = VC("Ok", assertionInfoVal(info))
+						}
+						return a + "|" + b
+					}()
+					if got != rec.obs {
+						mu.Lock()
+						diffs = append(diffs, diff{i, got})
+						mu.Unlock()
+					}
+				}
+			}
+		}(w)
+	}
+	wg.Wait()
+	c.Count(fmt.Sprintf("resp:concurrent-replays=%d", workers*rounds*len(recs)))
+	seen := map[int]bool{}
+	for _, d := range diffs {
+		if seen[d.i] || len(seen) >= 3 {
+			continue
+		}
+		seen[d.i] = true
+		rec := recs[d.i]
+		c.Violate("spec", "concurrency:result-differs", "the same encoded Response under the same configuration gives another result when other validations run at the same time (state shared between calls)",
+			map[string]interface{}{"op": "ValidateEncodedResponse+RetrieveAssertionInfo, 8 goroutines x 3 rounds over the recorded cases, fresh SP per call",
+				"labels": rec.labels, "encoded_response": rec.wire, "clock": rec.now.Format(time.RFC3339Nano), "store": rec.store,
+				"alone": rec.obs, "concurrent": d.got, "all_inputs": func() []string {
+					var ws []string
+					for _, r := range recs {
+						ws = append(ws, r.wire)
+					}
+					return ws
+				}()})
+	}
+}
+
 func hasCommentC14N(rs *ResponseSpec) bool {
 	f := func(o *SignOpts) bool { return o != nil && strings.HasSuffix(o.C14N, "comments") }
 	if f(rs.SignedBy) {
@@ -1117,7 +1292,7 @@ func (g *xgen) randEncOpts(w *World) *EncOpts {
 	return o
 }
 
-func runOneResponse(c *Ctx, cs *CaseSet, rc *respCase, respSigOK bool, profileFault string) {
+func runOneResponse(c *Ctx, cs *CaseSet, rc *respCase, respSigOK bool, profileFault string) (obsOut string) {
 	sp := rc.sp
 	var resp *types.Response
 	var err error
@@ -1142,6 +1317,7 @@ func runOneResponse(c *Ctx, cs *CaseSet, rc *respCase, respSigOK bool, profileFa
 		return
 	}
 	var obsResp, obsInfo string
+	defer func() { obsOut = obsResp + "|" + obsInfo }()
 	if err != nil {
 		obsResp = VC("Err", errVal(err))
 	} else {
@@ -1236,6 +1412,17 @@ func runOneResponse(c *Ctx, cs *CaseSet, rc *respCase, respSigOK bool, profileFa
 		if profileFault != "" && rc.genuine {
 			c.Violate("spec", "profile:"+profileFault, "a Response violating the profile check ("+profileFault+") was accepted", replay)
 		}
+		// expiry (C05): no returned assertion may be at or past its signed SubjectConfirmationData NotOnOrAfter at the SP clock
+		for i := range resp.Assertions {
+			a := &resp.Assertions[i]
+			for _, sa := range rc.trusted {
+				if sa.ID == a.ID && matchesSpec(a, sa) {
+					if noa, e := time.Parse(time.RFC3339, sa.NOA); e == nil && !rc.now.Before(noa) {
+						c.Violate("spec", "time:accepted-expired", fmt.Sprintf("accepted although the SP clock %s is at or after NotOnOrAfter %s of assertion %q", rc.now.Format(time.RFC3339Nano), sa.NOA, a.ID), replay)
+					}
+				}
+			}
+		}
 	}
 	// genuine, unedited, verifiable, profile-conforming => must be accepted and reproduced (C08)
 	if rc.genuine && profileFault == "" && !sp.SkipSignatureValidation && len(rc.trusted) == len(rc.rs.Assertions) &&
@@ -1262,7 +1449,7 @@ func runOneResponse(c *Ctx, cs *CaseSet, rc *respCase, respSigOK bool, profileFa
 				if first.NameID != nil && info.NameID != *first.NameID {
 					c.Violate("spec", "genuine:info-nameid", fmt.Sprintf("AssertionInfo.NameID %q, signed %q", info.NameID, *first.NameID), replay)
 				}
-				if what := infoMatchesSpec(info, first, rc.now); what != "" {
+				if what := infoMatchesSpec(info, first, rc.now, sp.AudienceURI); what != "" {
 					c.Violate("spec", "genuine:info-fields", "AssertionInfo does not summarise the first signed assertion: "+what, replay)
 				}
 			}
@@ -1280,6 +1467,7 @@ func runOneResponse(c *Ctx, cs *CaseSet, rc *respCase, respSigOK bool, profileFa
 	o := buildOracles(sp, root)
 	in := "(" + configTerm(sp) + ", " + Instant(rc.now) + ", " + nodeTerm(root) + ", " + o.dsigTerm() + ", " + o.decryptTerm() + ")"
 	cs.Add(in, VL([]string{obsResp, obsInfo}), strings.Join(rc.labels, ","))
+	return
 }
 
 func hasLabelPrefix(labels []string, p string) bool {
